@@ -259,8 +259,14 @@ func replay(path string) {
 		hkit.EngineError("%v", err)
 	}
 	if r.Failure != nil {
-		fmt.Printf("history: %+v\n%s\n", r.Failure.History, r.Failure.Detail)
-		fmt.Println("(re-run the check to re-evaluate this history)")
+		fmt.Printf("history on store %q: %+v\nrecorded: %s\n", r.Failure.Store, r.Failure.History, r.Failure.Detail)
+		d, bad := replayHistory(r.Failure)
+		if !bad {
+			fmt.Println("replay: no violation")
+			os.Exit(0)
+		}
+		fmt.Printf("replay: %s\n", d)
+		fmt.Printf("VIOLATION property=%s replay=%s\n", propID, path)
 		os.Exit(1)
 	}
 	v, x := vsched.Replay(scenario(&r.Scenario), r.Violation.Choices)
